@@ -447,6 +447,24 @@ class Run:
         # additive (C05S, queue limits at scheduler level): the pool in get_tasks() order (= queue push order), the
         # internal queues [name, limit, [[point, name]..]] with each deque listed head first (next to be released
         # first), and the proxies waiting on job preparation
+        # additive (C26S, pool bookkeeping under `cylc set` / flows / restart): the look-up paths of the pool against
+        # the objects filed in `active_tasks` (`flat`, read above before get_tasks() refreshed the cache):
+        # _get_task_by_id / get_task return the filed object itself, identities are unique, no pooled object is
+        # marked transient, the refreshed task list is exactly the filed objects, get_task_ids() are their ids,
+        # every proxy sitting in an internal queue / in the trigger-now set is the pooled object of its id
+        obs['idx'] = {
+            'n': len(flat),
+            'byid': all(tp._get_task_by_id(t.identity) is t for t in flat),
+            'get_task': all(tp.get_task(t.point, t.tdef.name) is t for t in flat),
+            'ids': len({t.identity for t in flat}) == len(flat),
+            'list': [id(t) for t in tp.get_tasks()] == [id(t) for t in flat],
+            'task_ids': tp.get_task_ids() == {t.identity for t in flat},
+            'transient': sorted([int(t.point), t.tdef.name] for t in flat if t.transient),
+            'queued_out': sorted([int(t.point), t.tdef.name] for q in tp.task_queue_mgr.queues.values()
+                                 for t in q.deque if tp._get_task_by_id(t.identity) is not t),
+            'now_out': sorted([int(t.point), t.tdef.name] for t in tp.tasks_to_trigger_now
+                              if tp._get_task_by_id(t.identity) is not t),
+        }
         obs['order'] = [[int(t.point), t.tdef.name] for t in schd.pool.get_tasks()]
         obs['qs'] = [[qn, int(q.limit), [[int(t.point), t.tdef.name] for t in reversed(q.deque)]]
                      for qn, q in tp.task_queue_mgr.queues.items()]
@@ -1108,7 +1126,7 @@ class Run:
             else:
                 top = int(self.schd.flow_mgr.counter) + 1
                 flow = sorted({str(rng.randint(1, top)) for _ in range(rng.choice([1, 1, 2]))})
-            wait = bool(flow not in (['new'], ['none']) and rng.random() < 0.15)
+            wait = bool(flow not in (['new'], ['none']) and rng.random() < pol.get('p_wait', 0.15))
             return {'op': 'cmd', 'name': 'force_trigger_tasks',
                     'args': {'tasks': sorted(f'{p}/{n}' for p, n in group), 'flow': flow, 'flow_wait': wait}}
         if kind == 'remove':
@@ -1146,7 +1164,9 @@ class Run:
             # any state) with --flow=default / new / none / N.. and --wait.  One id per command (the code iterates
             # a set of ids), at most one custom output per command (custom outputs tie in the sort key).
             pooled = [(int(t.point), t.tdef.name) for t in self.schd.pool.get_tasks()]
-            src = pooled if pooled and rng.random() < 0.5 else insts
+            # (C26S / C11R, additive policy keys with the old values as defaults, same random draws:
+            # p_set_pooled = share of commands aimed at a pooled instance, p_wait = share of --wait)
+            src = pooled if pooled and rng.random() < pol.get('p_set_pooled', 0.5) else insts
             p, n = rng.choice(sorted(src))
             active = set()
             for t in self.schd.pool.get_tasks():
@@ -1161,7 +1181,7 @@ class Run:
             else:
                 top = int(self.schd.flow_mgr.counter) + 1
                 flow = sorted({str(rng.randint(1, top)) for _ in range(rng.choice([1, 1, 2]))})
-            wait = bool(flow not in (['new'], ['none']) and rng.random() < 0.15)
+            wait = bool(flow not in (['new'], ['none']) and rng.random() < pol.get('p_wait', 0.15))
             args = {'tasks': [f'{p}/{n}'], 'flow': flow, 'flow_wait': wait}
             tdefs = g['tasks']
             if kind == 'set_out':
